@@ -136,6 +136,14 @@ let eval (w : string array) : float list =
     let rv = if aniso then Some r0v else None in
     let pl = pairlist_build fops r0 rv (z_of_int en) (z_of_int ed) tol cell g1 g2 in
     [cv_coordnum_pl fops pl r0 rv (z_of_int en) (z_of_int ed) tol cell h1 h2]
+  | "fitcart" ->
+    (* cartesian coordinates of a group fitted through fitg: rotate flag, reference, fitting group, group *)
+    let rot = ni () <> 0 in
+    let n = ni () in
+    let rf = List.init n (fun _ -> v3 ()) in
+    let fitg = group () in let g = group () in
+    let q = optimal_q (List.split (fit_pairs fops rf fitg)) in
+    flat_coords (fit_general fops rot q rf fitg g)
   | "distancePairs" -> let g1 = group () in let g2 = group () in cv_distance_pairs fops pbc cell g1 g2
   | "rmsd" | "eigenvector" ->
     let n = ni () in
